@@ -22,6 +22,53 @@ thread_local! {
     static DENY_ALLOC: std::cell::Cell<bool> = const { std::cell::Cell::new(false) };
 }
 pub static ALLOC_FAULTS: std::sync::atomic::AtomicBool = std::sync::atomic::AtomicBool::new(false);
+/// In this run the process's panic hook makes library calls (see `calls_from_panic_hook`).
+pub static HOOK_CALLS: std::sync::atomic::AtomicBool = std::sync::atomic::AtomicBool::new(false);
+static HOOK_COUNT: std::sync::atomic::AtomicU64 = std::sync::atomic::AtomicU64::new(0);
+static HOOK_FINDINGS: std::sync::Mutex<Vec<String>> = std::sync::Mutex::new(Vec::new());
+
+/// What a logging panic hook does: formats and parses a few ordinary values with default options.  Runs on
+/// the panicking thread before unwinding.  A wrong answer is recorded; a panic in here aborts the process,
+/// which the driver reports with the run's history.
+pub fn calls_from_panic_hook() {
+    HOOK_COUNT.fetch_add(1, std::sync::atomic::Ordering::Relaxed);
+    let mut bad: Vec<String> = Vec::new();
+    let mut buf = [0u8; 64];
+    for (v, want) in [(f64::NAN, "NaN"), (f64::NEG_INFINITY, "-inf"), (-1.5f64, "-1.5"), (0.0f64, "0.0")] {
+        let got = lexical_core::write(v, &mut buf);
+        if got != want.as_bytes() {
+            bad.push(format!("lexical_core::write({:?}) produced \"{}\"", v, show_text(got)));
+        }
+        let s = lexical::to_string(v);
+        if s != want {
+            bad.push(format!("lexical::to_string({:?}) returned \"{}\"", v, show_text(s.as_bytes())));
+        }
+    }
+    let got = lexical_core::write(-12345i64, &mut buf);
+    if got != b"-12345" {
+        bad.push(format!("lexical_core::write(-12345i64) produced \"{}\"", show_text(got)));
+    }
+    match lexical_core::parse::<f64>(b"-inf") {
+        Ok(v) if v == f64::NEG_INFINITY => {},
+        r => bad.push(format!("parse::<f64>(\"-inf\") returned {:?}", r)),
+    }
+    match lexical_core::parse::<f64>(b"2.5e3") {
+        Ok(v) if v == 2500.0 => {},
+        r => bad.push(format!("parse::<f64>(\"2.5e3\") returned {:?}", r)),
+    }
+    if !bad.is_empty() {
+        if let Ok(mut g) = HOOK_FINDINGS.lock() {
+            g.extend(bad);
+        }
+    }
+}
+
+pub fn take_hook_findings() -> (u64, Vec<String>) {
+    let n = HOOK_COUNT.swap(0, std::sync::atomic::Ordering::Relaxed);
+    let v = HOOK_FINDINGS.lock().map(|mut g| std::mem::take(&mut *g)).unwrap_or_default();
+    (n, v)
+}
+
 /// Stack size of the simulated caller threads in KiB; 0 = the platform default (2 MiB).
 pub static SMALL_STACK_KB: std::sync::atomic::AtomicUsize = std::sync::atomic::AtomicUsize::new(0);
 /// What a "small stack" run uses (a pool worker, an embedded RTOS task, a green thread): see DESIGN for how it was chosen.
@@ -98,6 +145,8 @@ pub enum Op {
         ty: FloatTy,
         radix: u8,
         bits: u64,
+        /// index into BREAK_POOL: custom exponent breaks (forcing positional or exponent notation); None = defaults
+        brk: Option<u8>,
     },
     /// parse an exactly representable non-decimal float
     PFloatR {
@@ -314,7 +363,11 @@ impl Op {
                 ty,
                 radix,
                 bits,
-            } => format!("WFloatR {} {} {:x}", ty.name(), radix, bits),
+                brk,
+            } => match brk {
+                None => format!("WFloatR {} {} {:x}", ty.name(), radix, bits),
+                Some(i) => format!("WFloatR {} {} {:x} b{}", ty.name(), radix, bits, i),
+            },
             Op::PFloatR {
                 ty,
                 radix,
@@ -388,10 +441,15 @@ impl Op {
                 bits: u64::from_str_radix(f[2], 16).ok()?,
                 short: sh(f[3])?,
             }),
-            "WFloatR" if f.len() == 4 => Some(Op::WFloatR {
+            "WFloatR" if f.len() == 4 || f.len() == 5 => Some(Op::WFloatR {
                 ty: FloatTy::from_name(f[1])?,
                 radix: f[2].parse().ok()?,
                 bits: u64::from_str_radix(f[3], 16).ok()?,
+                brk: if f.len() == 5 {
+                    Some(f[4].strip_prefix('b')?.parse::<u8>().ok().filter(|i| (*i as usize) < BREAK_POOL.len())?)
+                } else {
+                    None
+                },
             }),
             "PFloatR" if f.len() == 5 => Some(Op::PFloatR {
                 ty: FloatTy::from_name(f[1])?,
@@ -482,7 +540,17 @@ impl Op {
                 ty,
                 radix,
                 bits,
-            } => format!("write::<{}>(bits {:#x}) radix {} then parse back", ty.name(), bits, radix),
+                brk,
+            } => format!(
+                "write::<{}>(bits {:#x}) radix {}{} then parse back",
+                ty.name(),
+                bits,
+                radix,
+                match brk {
+                    Some(i) => format!(" with exponent breaks {:?} into a buffer_size_const buffer", BREAK_POOL[*i as usize]),
+                    None => String::new(),
+                }
+            ),
             Op::PFloatR {
                 ty,
                 radix,
@@ -1022,6 +1090,73 @@ fn equidistant(ty: FloatTy, bits: u64, a: &[u8], ap: i64, b: &[u8], bp: i64) -> 
     let len = d.len() as i64;
     let exact = d.trim_end_matches('0').as_bytes();
     k as i64 + len - 1 == ap && exact.len() == lower.len() + 1 && &exact[..lower.len()] == lower && exact[lower.len()] == b'5'
+}
+
+/// Does the well-formed radix numeral `text` (mantissa digits, optional point, optional exponent written in the
+/// same radix, exponent base = radix) denote exactly m * 2^e2?  Exact big-natural arithmetic; None if unreadable.
+#[allow(dead_code)]
+fn radix_text_denotes(text: &[u8], radix: u32, exp_char: u8, m: u64, e2: i32) -> Option<bool> {
+    let t = match text.first() {
+        Some(b'-') | Some(b'+') => &text[1..],
+        _ => text,
+    };
+    let (mant, x) = match t.iter().position(|&c| c == exp_char) {
+        Some(i) => {
+            let e = &t[i + 1..];
+            let (neg, digs) = match e.first() {
+                Some(b'-') => (true, &e[1..]),
+                Some(b'+') => (false, &e[1..]),
+                _ => (false, e),
+            };
+            if digs.is_empty() {
+                return None;
+            }
+            let mut v: i64 = 0;
+            for &c in digs {
+                v = v.checked_mul(radix as i64)?.checked_add(digit_val(c, radix)? as i64)?;
+            }
+            (&t[..i], if neg { -v } else { v })
+        },
+        None => (t, 0),
+    };
+    let mut n = BigNat::from_u128(0);
+    let mut frac = 0i64;
+    let mut seen_point = false;
+    let mut any = false;
+    for &c in mant {
+        if c == b'.' {
+            if seen_point {
+                return None;
+            }
+            seen_point = true;
+            continue;
+        }
+        let d = digit_val(c, radix)?;
+        n.mul_small(radix);
+        n.add_small(d);
+        any = true;
+        if seen_point {
+            frac += 1;
+        }
+    }
+    if !any {
+        return None;
+    }
+    // text = n * radix^s ; value = m * 2^e2 ; compare after clearing negative powers on both sides
+    let s = x - frac;
+    let mut lhs = n;
+    let mut rhs = BigNat::from_u128(m as u128);
+    if s >= 0 {
+        lhs.mul_pow(radix, u32::try_from(s).ok()?);
+    } else {
+        rhs.mul_pow(radix, u32::try_from(-s).ok()?);
+    }
+    if e2 >= 0 {
+        rhs.mul_pow(2, e2 as u32);
+    } else {
+        lhs.mul_pow(2, (-e2) as u32);
+    }
+    Some(lhs.to_decimal() == rhs.to_decimal())
 }
 
 fn is_ascii(b: &[u8]) -> bool {
@@ -1748,16 +1883,38 @@ fn exec_wfloat<T: SimFloat>(ty: FloatTy, bits: u64, short: Option<usize>, arena:
 }
 
 #[cfg(any(feature = "pow2", feature = "radix"))]
-fn exec_wfloat_r<T: SimFloat, const F: u128>(ty: FloatTy, radix: u8, bits: u64, arena: &mut Arena, out: &mut OpResult) {
+fn exec_wfloat_r<T: SimFloat, const F: u128>(ty: FloatTy, radix: u8, bits: u64, brk: Option<u8>, arena: &mut Arena, out: &mut OpResult) {
     let v = T::from_b(bits);
-    let wopts = WriteFloatOptions::from_radix(radix);
     let popts = ParseFloatOptions::from_radix(radix);
     let exp_char = if radix >= 15 {
         b'^'
     } else {
         b'e'
     };
-    let bound = T::FORMATTED_SIZE;
+    let (wopts, bound) = match brk {
+        None => (WriteFloatOptions::from_radix(radix), T::FORMATTED_SIZE),
+        Some(i) => {
+            let (nb, pb) = BREAK_POOL[i as usize];
+            let o = match WriteFloatOptions::builder()
+                .exponent(exp_char)
+                .negative_exponent_break(core::num::NonZeroI32::new(nb))
+                .positive_exponent_break(core::num::NonZeroI32::new(pb))
+                .build()
+            {
+                Ok(o) => o,
+                Err(e) => {
+                    out.fail("HARNESS", format!("radix break options rejected: {:?}", e));
+                    return;
+                },
+            };
+            let b = o.buffer_size_const::<T, F>();
+            if b > CAP {
+                out.fail("HARNESS", format!("buffer_size_const {} exceeds arena", b));
+                return;
+            }
+            (o, b)
+        },
+    };
     arena.arm(bound);
     let r = {
         let buf = arena.buf(bound);
@@ -1826,6 +1983,29 @@ fn exec_wfloat_r<T: SimFloat, const F: u128>(ty: FloatTy, radix: u8, bits: u64, 
         };
         out.fail_tagged(tag, kf, format!("output \"{}\" is not a well-formed radix-{} float", text, radix));
         return;
+    }
+    // independent of the library's parser: the written numeral, evaluated exactly, against the float's exact value
+    let int_limit = match ty {
+        FloatTy::F64 => 1u64 << 53,
+        FloatTy::F32 => 1u64 << 24,
+    };
+    let (m2, e2) = ty.decompose(ty.abs(bits));
+    let small_integer = e2 <= 0 && e2 > -64 && (m2 >> (-e2)) << (-e2) == m2 && (m2 >> (-e2)) < int_limit;
+    if ty.abs(bits) != 0 && (pow2 || small_integer) {
+        match radix_text_denotes(&got, radix as u32, exp_char, m2, e2) {
+            Some(true) => {},
+            Some(false) => out.fail(
+                tag,
+                format!(
+                    "radix-{} output \"{}\" does not denote exactly the written value {:#x} ({})",
+                    radix,
+                    text,
+                    bits,
+                    if pow2 { "a digit was rounded or dropped" } else { "an integer below 2^53 / 2^24 must be written exactly" }
+                ),
+            ),
+            None => out.fail("HARNESS", format!("cannot evaluate well-formed radix-{} output \"{}\"", radix, text)),
+        }
     }
     match guarded(|| lexical_core::parse_with_options::<T, F>(&got, &popts)) {
         Ok(Ok(b)) => {
@@ -2376,7 +2556,8 @@ pub fn exec_mode(op: &Op, arena: &mut Arena, lite: bool) -> OpResult {
             ty,
             radix,
             bits,
-        } => float_dispatch!(*ty, T => float_radix_dispatch!(*radix, F => exec_wfloat_r::<T, F>(*ty, *radix, *bits, arena, &mut out))),
+            brk,
+        } => float_dispatch!(*ty, T => float_radix_dispatch!(*radix, F => exec_wfloat_r::<T, F>(*ty, *radix, *bits, *brk, arena, &mut out))),
         #[cfg(any(feature = "pow2", feature = "radix"))]
         Op::PFloatR {
             ty,
